@@ -181,8 +181,7 @@ def variants(l0: int, l1: int, n: int, ti: int, v: int) -> bool:
         exp_ne = ("ok", doc)
     else:
         exp_ne = r_add
-    if not why(r_ne[0] == exp_ne[0] and (exp_ne[0] == "err" or same_json(r_ne[1], exp_ne[1])) or (r_add[0] == "err" and not existing_member),
-               "addne", path, r_ne, exp_ne):
+    if not why(r_ne[0] == exp_ne[0] and (exp_ne[0] == "err" or same_json(r_ne[1], exp_ne[1])), "addne", path, r_ne, exp_ne):
         return ok(False)
     if unresolvable_index:
         ref = mkdoc(l0, l1, n)
@@ -215,7 +214,15 @@ def options(pi: int, which: int, v: int, l0: int) -> bool:
     b = _builder(ds)
     if not why(_same_dicts(a.asdicts(), b.asdicts()), "document and builder forms print differently", OPTS, a.asdicts(), b.asdicts()):
         return ok(False)
-    c = JSONPatch(a.asdicts(), **OPTS)
+    printed_has_escape = any(("\\" in d["path"]) or (OPTS.get("uri_decode") and "%" in d["path"]) for d in a.asdicts())
+    if printed_has_escape and kf("C15-printed-path-decoded-again"):
+        # known finding: the printed path still contains an escape character; loading it with the same options decodes it again
+        c = a
+    else:
+        try:
+            c = JSONPatch(a.asdicts(), **OPTS)
+        except JSONPatchError as e:
+            return ok(why(False, "the patch's own asdicts() output does not load", OPTS, a.asdicts(), str(e)))
     doc = {"a b": {"c": l0}, "xA": 1, "x\\u0041": 2, "a%20b": {"c": 0}}
     ra = _apply(a, copy.deepcopy(doc))
     rb = _apply(b, copy.deepcopy(doc))
